@@ -289,12 +289,7 @@ def _claw_query(name):
 
 
 def _hook_count():
-    n = 0
-    for h in sys.path_hooks:
-        q = getattr(h, '__qualname__', '') + getattr(h, '__module__', '')
-        if 'beartype' in q or 'beartype' in repr(h):
-            n += 1
-    return n
+    return ops.beartype_hook_count()
 
 
 def _install_cw_serialiser():
